@@ -35,7 +35,7 @@ CONTRACTS = {
     D + "shutdown": dict(
         props=["C13", "C12"], params={"self": DISP}, returns=NONE_T,
         requires=["not self._strict"],
-        trace=[EXH], loops=[{"body_trace": [once({"shutdown"})]}],
+        trace=[EXH], loops=[{"invariant": ["first_error is None"], "body_trace": [once({"shutdown"})]}],
     ),
     D + "shutdown_async": dict(
         props=["C13", "C12"], params={"self": DISP}, returns=NONE_T,
